@@ -427,9 +427,27 @@ def rule_sanitiser(repo: Repo) -> List[Ob]:
             msg = f"sanitiser pattern {pat!r} is not a negated character class removed from the name"
     obs.append(Ob("C-sanitiser", "bayesnet/code_generator.py::__generate_mapping__::charclass", f.relpath, line, f.qualname, ok, msg))
     # names must also be made unique
-    uniq = any(isinstance(c, ast.Call) and call_name(c) == "get_unique_name" for c in walk_no_nested(f.node))
-    obs.append(Ob("C-sanitiser", "bayesnet/code_generator.py::__generate_mapping__::unique", f.relpath, f.node.lineno, f.qualname, uniq,
-                  "sanitised names are made unique against the names already given" if uniq else "two network variables may collapse to one program variable"))
+    ucalls = [c for c in walk_no_nested(f.node) if isinstance(c, ast.Call) and call_name(c) == "get_unique_name"]
+    uniq = False
+    why = "two network variables may collapse to one program variable (no uniqueness step)"
+    if ucalls and ucalls[0].args:
+        a0 = ucalls[0].args[0]
+        # the mapping that receives the result
+        stores = [n for n in walk_no_nested(f.node) if isinstance(n, ast.Assign) and isinstance(n.targets[0], ast.Subscript)]
+        maps = {src(n.targets[0].value) for n in stores}
+        uniq = isinstance(a0, ast.Call) and call_name(a0) == "values" and src(a0.func.value) in maps
+        why = ("sanitised names are made unique against the program names already given (the values of the mapping)" if uniq else
+               f"uniqueness is tested against `{src(a0)}`, not against the program names already given: `rain-y` and `Rainy` both become `rainy` and share one program variable")
+    obs.append(Ob("C-sanitiser", "bayesnet/code_generator.py::__generate_mapping__::unique", f.relpath, ucalls[0].lineno if ucalls else f.node.lineno, f.qualname, uniq, why))
+    # query helper names are made unique against the same program names
+    for rp2 in ("bayesnet/query/exact_inference_query.py", "bayesnet/query/sampling_time_query.py"):
+        for g in [x for x in repo.functions if x.relpath == rp2]:
+            for c in walk_no_nested(g.node):
+                if isinstance(c, ast.Call) and call_name(c) == "get_unique_name" and c.args:
+                    a0 = c.args[0]
+                    ok = isinstance(a0, ast.Call) and call_name(a0) == "values"
+                    obs.append(Ob("C-sanitiser", f"{rp2}::{g.qualname}::unique::{src(c.args[1])[:30] if len(c.args) > 1 else ''}", rp2, c.lineno, g.qualname, ok,
+                                  "auxiliary query variable is made unique against the program names" if ok else f"auxiliary name is checked against `{src(a0)}` instead of the program names"))
     return obs
 
 
@@ -447,6 +465,17 @@ def mut_sanitiser(repo: Repo) -> List[Mutant]:
     if ov:
         out.append(Mutant("sanitiser-keeps-dash", ov, "fire", "__generate_mapping__::charclass", control=True))
 
+    def keys_not_values(tree):
+        fn = find_def(tree, "CodeGenerator.__generate_mapping__")
+        for c in ast.walk(fn):
+            if isinstance(c, ast.Call) and call_name(c) == "get_unique_name" and isinstance(c.args[0], ast.Call):
+                c.args[0] = c.args[0].func.value
+                return True
+        return False
+    ov = mutate_module(repo, "bayesnet/code_generator.py", keys_not_values)
+    if ov:
+        out.append(Mutant("unique-against-original-names", ov, "fire", "__generate_mapping__::unique"))
+
     def nolower(tree):
         fn = find_def(tree, "CodeGenerator.__generate_mapping__")
         for c in ast.walk(fn):
@@ -463,5 +492,5 @@ def mut_sanitiser(repo: Repo) -> List[Mutant]:
 RULES = {
     "SPLICE": Rule("C-splice", rule_splice, 20, "every expression-valued hole of a text template that is parsed again is parenthesised or sits between precedence-safe neighbours", mut_splice),
     "GRAMMAR": Rule("C-grammar", rule_grammar_arithm, 10, "arithmetic sub-trees are re-stringified token by token (named terminals only, ordered join) so the CAS applies Python precedence", mut_grammar_arithm),
-    "SANITISER": Rule("C-sanitiser", rule_sanitiser, 2, "Bayes-network variable names are reduced to arithmetic atoms of the program grammar and kept unique", mut_sanitiser),
+    "SANITISER": Rule("C-sanitiser", rule_sanitiser, 5, "Bayes-network variable names are reduced to arithmetic atoms of the program grammar and kept unique", mut_sanitiser),
 }
